@@ -102,6 +102,9 @@ def gen(rng, tier, index):
             # one or two forced switches inside the poll loop, counted from the arrival of the first
             var.update(seg="lines", cuts=[], gap=0.03, tail_race=True,
                        sched={"policy": "pct", "seed": rng.getrandbits(32), "k": rng.choice([1, 2]), "horizon": rng.choice([8, 12]), "arm": True})
+            if rng.random() < 0.6:
+                var["tail_race"] = "at_switch"
+                var["sched"].update(k=rng.choice([2, 3]), horizon=rng.choice([14, 20, 28]))
         variants.append(var)
     return {"cfg": {"version": version, "stream": stream.hex(), "line_ends": line_ends}, "ops": variants}
 
@@ -150,8 +153,31 @@ def _execute(version, stream, line_ends, variant, probes):
             world.start()
             base = len(world.device.writes)
             segs = _segments(stream, line_ends, variant["seg"], variant["cuts"])
+            # index of the last COMPLETE line among the per-line segments (a trailing unterminated fragment is not a line)
+            last_line = len(segs) - 1 if stream.endswith(b"\n") else len(segs) - 2
+            skip_next = False
             for k, seg in enumerate(segs):
+                if skip_next:
+                    skip_next = False
+                    continue
                 world.device.inject(seg)
+                if variant.get("tail_race") == "at_switch" and k == last_line - 1 and last_line >= 1:
+                    # the last line arrives at exactly the instant the poll thread, busy with the line before it, is taken off
+                    # the CPU at a drawn change point of its loop (the reader then frames and queues it before the poll thread
+                    # goes on) - and nothing follows
+                    probes["tail_races"] = probes.get("tail_races", 0) + 1
+                    last = segs[last_line]
+                    sim.pct_arm()
+                    sim.on_preempt = lambda: world.device.inject(last)
+                    sim.sleep(0.5)
+                    if sim.on_preempt is not None:
+                        sim.on_preempt = None
+                        world.device.inject(last)  # no change point came up: delivered now
+                    else:
+                        probes["tail_line_delivered_at_a_switch"] = probes.get("tail_line_delivered_at_a_switch", 0) + 1
+                    sim.sleep(0.5)
+                    skip_next = True  # (an unterminated fragment behind the last line follows as usual)
+                    continue
                 if variant.get("tail_race") and k == len(segs) - 2:
                     probes["tail_races"] = probes.get("tail_races", 0) + 1
                     sim.pct_arm()
